@@ -345,6 +345,17 @@ fn gen_hull(rng: &mut Rng, tier: Tier) -> Sc {
         pts.rotate_left(s);
         return Sc::Hull { label: "star-polygon".into(), pts, polygon: true, pivot: None, pivot_mode: (0, 0, 0) };
     }
+    if rng.chance(if tier == Tier::Quick { 0.004 } else { 0.002 }) {
+        // a very large cloud whose size is a whisker over a multiple of a power of two, with an
+        // extreme point among the last few entries (block-wise reductions lose exactly those)
+        let block = *rng.pick(&[4096usize, 8192, 16384]);
+        let n = block * (1 + rng.below(2)) + 1 + rng.below(3);
+        let mut pts: Vec<[f64; 2]> = (0..n).map(|_| [rng.uniform(-1.0, 1.0), rng.uniform(-1.0, 1.0)]).collect();
+        let last = pts.len() - 1 - rng.below(2);
+        let a = rng.uniform(0.0, std::f64::consts::TAU);
+        pts[last] = [5.0 * a.cos(), 5.0 * a.sin()];
+        return Sc::Hull { label: "huge-cloud".into(), pts, polygon: false, pivot: None, pivot_mode: (0, 0, 0) };
+    }
     if rng.chance(0.3) {
         // sector / Reuleaux-like outlines: from one vertex a whole run of vertices is almost
         // equally far away, so the distance along the hull has several near-equal local maxima
@@ -395,6 +406,14 @@ fn gen_hull(rng: &mut Rng, tier: Tier) -> Sc {
                 let rr = if rng.chance(0.7) { r } else { r * rng.uniform(0.0, 1.0) };
                 pts.push([rr * a.cos(), rr * a.sin()]);
             }
+        }
+    }
+    // the length unit is arbitrary (the library's own absolute tolerances, 1e-10 in the circle
+    // intersection, put a floor under it: nothing below 1e-6 is generated)
+    if rng.chance(0.3) {
+        let sc = *rng.pick(&[1e-6, 1e-3, 1e3, 1e6]);
+        for p in pts.iter_mut() {
+            *p = [p[0] * sc, p[1] * sc];
         }
     }
     // ball pivoting: generic (tie-free) clouds only, radius a few mean spacings
@@ -1044,7 +1063,9 @@ impl Property for C15 {
                                 if shoelace(&poly) <= 0.0 {
                                     out.push(Violation::new("hull-not-ccw", "hull::convex_hull_2d", format!("hull {:?} has signed area {}", h, shoelace(&poly)), &[vi]));
                                 } else {
-                                    let tol = 1e-9 * scale_len * scale_len;
+                                    // (parry's hull works with an absolute epsilon: at a length unit of 1e-6 a
+                                    // point was seen 2e-9 of the extent outside an edge; 1e-7 is the tie band)
+                                    let tol = 1e-7 * scale_len * scale_len;
                                     'inside: for (pi, p) in pts.iter().enumerate() {
                                         for e in 0..poly.len() {
                                             let c = cross2(poly[e], poly[(e + 1) % poly.len()], *p);
